@@ -127,6 +127,22 @@ func Canon(ds diag.Diagnostics) []Diag {
 	return out
 }
 
+// rawDups counts the diagnostics that repeat an earlier one word for word (severity, summary and detail): the same
+// problem reported more than once. Two different problems under one path (a list of the wrong type in one element,
+// an element of the wrong type in another) have different details and are not duplicates.
+func rawDups(ds diag.Diagnostics) int {
+	seen := map[[3]string]bool{}
+	n := 0
+	for _, d := range ds {
+		k := [3]string{d.Severity().String(), d.Summary(), d.Detail()}
+		if seen[k] {
+			n++
+		}
+		seen[k] = true
+	}
+	return n
+}
+
 // DiagsSx renders canonical diagnostics.
 func DiagsSx(ds []Diag) *spec.Sx {
 	l := spec.L(spec.A("diags"))
@@ -189,7 +205,7 @@ func (p *Program) ExecTo(r *Root, src *GV, target *TV) (res ToResult) {
 		}()
 		ds := r.To(bg, v, &obj)
 		res.Diags = Canon(ds)
-		res.Dups = len(ds) - len(res.Diags)
+		res.Dups = rawDups(ds)
 	}()
 	res.Hooks = support.Log()
 	if res.Panic == "" {
@@ -218,7 +234,7 @@ func (p *Program) ExecFrom(r *Root, obj *TV, prior *GV) (res FromResult) {
 		}()
 		ds := r.From(bg, o, v)
 		res.Diags = Canon(ds)
-		res.Dups = len(ds) - len(res.Diags)
+		res.Dups = rawDups(ds)
 	}()
 	res.Hooks = support.Log()
 	if res.Panic == "" {
